@@ -210,10 +210,18 @@ class LeanSide:
         thms = self.theorems()
         rep["obligations"] = len(thms)
         rep["theorems"] = [t[0] for t in thms]
-        rep["translator"] = self.regenerate()
         mod = f"CuqiVerif.Props.{self.pid}"
         mods = ["CuqiVerif.Props." + os.path.basename(f)[:-5] for f in self.props_files]
-        r = self._locked(["lake", "build"] + mods)
+        # the source-derived tables are regenerated and the theorems over them rebuilt under ONE lock, so that a
+        # concurrent run against another source tree (CUQI_REPO) cannot swap the tables between the two steps
+        lock = open(os.path.join(LEAN, ".build.lock"), "w")
+        fcntl.flock(lock, fcntl.LOCK_EX)
+        try:
+            rep["translator"] = self.regenerate()
+            r = subprocess.run(["lake", "build"] + mods, cwd=LEAN, capture_output=True, text=True, timeout=3000)
+        finally:
+            fcntl.flock(lock, fcntl.LOCK_UN)
+            lock.close()
         rep["build_rc"] = r.returncode
         if r.returncode != 0:
             log = r.stdout + r.stderr
